@@ -248,7 +248,20 @@ pub fn template(r: &mut Rng, which: usize) -> Tmpl {
             let ix = index_call_cond(r);
             let n1 = *r.pick(&TWO);
             let n2 = *r.pick(&TWO);
-            match r.below(11) {
+            match r.below(13) {
+                // conditions that spell the same characters once blanks are dropped, but are different token sequences
+                11 => t("ifs_same_cond", "glued-spelling", false, (*r.pick(&[
+                    "if a and b then\n  foo()\nelseif aandb then\n  bar()\nend",
+                    "if aorb then\n  foo()\nelseif a or b then\n  bar()\nend",
+                    "if not x then\n  foo()\nelseif notx then\n  bar()\nend",
+                    "if x == 1 then\n  foo()\nelseif x == 11 then\n  bar()\nelseif x1 == 1 then\n  baz()\nend",
+                    "if a .. b then\n  foo()\nelseif ab then\n  bar()\nelseif a_b then\n  baz()\nend",
+                ])).to_owned()),
+                12 => t("if_same_then_else", "glued-spelling", false, (*r.pick(&[
+                    "if c then\n  x = a and b\nelse\n  x = aandb\nend",
+                    "if c then\n  print(not x)\nelse\n  print(notx)\nend",
+                    "if c then\n  f(a, b)\nelse\n  f(ab)\nend",
+                ])).to_owned()),
                 0 => t("ifs_same_cond", "same", true, format!("if {c} then\n  foo()\nelseif {c} then\n  bar()\nend")),
                 1 => t("ifs_same_cond", "same-later", true, format!("if {c} then\n  foo()\nelseif {d} then\n  bar()\nelseif {c} then\n  baz()\nend")),
                 2 => t("ifs_same_cond", "same-two-elseifs", true, format!("if {c} then\n  foo()\nelseif {d} then\n  bar()\nelseif {d} then\n  baz()\nelse\n  q()\nend")),
